@@ -87,7 +87,7 @@ def _nested_edit(net):
     return k
 
 
-@harness("C07.equal")
+@harness("C07.equal", raises_are_violations=True)
 def equal(ctx, p):
     """Equality, no shared mutable state, nested edits invisible, both stay fresh."""
     net = _build(ctx, p)
